@@ -1,9 +1,9 @@
 CONSTANTS
   MaxN = 4
   MaxDeps = 1
-  Classes = {"ok", "Transport", "ErrorsNoData", "PartialData"}
+  Classes = {"ok", "Transport", "ErrorsNoData", "RateLimited"}
   MaxFaults = 2
   Ents = {1}
 SPECIFICATION MCSpec
-INVARIANTS TypeOK InstWellFormed NoFabrication Independent SkipJustified ErrorReportedPerFetch ErrorReported DepsSettled
+INVARIANTS TypeOK InstWellFormed NoFabrication Independent SkipJustified ErrorReportedPerFetch ErrorReported DepsSettled DeniedNotSent
 PROPERTIES Terminates
